@@ -72,6 +72,10 @@ extern void (*point_hook)(const char* id);
     }                                                                        \
   } while (false)
 
-#endif // defined(BUGSENG_PPL_VERIF)
+#else // !defined(BUGSENG_PPL_VERIF)
+
+#define PPL_VERIF_POINT(name) do { } while (false)
+
+#endif // !defined(BUGSENG_PPL_VERIF)
 
 #endif // !defined(PPL_verif_hooks_hh)
